@@ -32,6 +32,23 @@ namespace {
 
 using i128 = __int128;
 
+/// r.violation keeps the first witness per (property, subject, class) and counts the rest: build
+/// the case and detail texts only for that first one
+struct FirstOnly {
+    std::set<std::tuple<std::string, std::string, std::string>> seen;
+    bool first(std::string const& p, std::string const& s, std::string const& c) { return seen.emplace(p, s, c).second; }
+};
+inline FirstOnly g_firstOnly;
+#define VIOL(rep, prop, subj, cls, kase, detail)                                                     \
+    do {                                                                                             \
+        std::string const cls_ = (cls);                                                              \
+        if (g_firstOnly.first((prop), (subj), cls_)) {                                               \
+            (rep).violation((prop), (subj), cls_, (kase), (detail));                                 \
+        } else {                                                                                     \
+            (rep).violation((prop), (subj), cls_, std::string(), std::string());                     \
+        }                                                                                            \
+    } while (0)
+
 template <typename T>
 char const* tname()
 {
@@ -157,12 +174,12 @@ struct FormatChecker {
     void after_call(char const* subj, T v, int base, std::size_t len, std::size_t need)
     {
         if (!pool.intact(len)) {
-            r.violation("C02", subj, fmt_class(v, base, len, need), kase(v, base, len), "wrote outside [first,last): canary bytes around the exact-size buffer damaged");
+            VIOL(r, "C02", subj, fmt_class(v, base, len, need), kase(v, base, len), "wrote outside [first,last): canary bytes around the exact-size buffer damaged");
         }
         auto const now = mc::san_hits();
         if (now != san) {
             san = now;
-            r.violation("C02", subj, fmt_class(v, base, len, need), kase(v, base, len), "ASan/UBSan report during the call (see job log)");
+            VIOL(r, "C02", subj, fmt_class(v, base, len, need), kase(v, base, len), "ASan/UBSan report during the call (see job log)");
         }
     }
 
@@ -192,7 +209,7 @@ struct FormatChecker {
                 }
                 if (!ok && wToChars) {
                     bool const inRange = res.ptr >= f && res.ptr <= f + len;
-                    r.violation("C10", S_TO_CHARS, fmt_class(v, base, len, n), kase(v, base, len),
+                    VIOL(r, "C10", S_TO_CHARS, fmt_class(v, base, len, n), kase(v, base, len),
                         cat("tetl: ec=", int(res.ec), " ptr=", res.ptr == nullptr ? std::string("null") : (inRange ? cat("first+", res.ptr - f) : std::string("outside")),
                             inRange && res.ec == etl::errc{} ? cat(" text=", show_buf(f, static_cast<std::size_t>(res.ptr - f))) : std::string(),
                             " | std: ", n <= len ? cat("ec=0 ptr=first+", n, " text=", show_buf(ref, n)) : std::string("ec=value_too_large ptr=last")));
@@ -206,7 +223,7 @@ struct FormatChecker {
                     ++evals;
                     ++roundtrips;
                     if (!(pr.ec == etl::errc{} && pr.ptr == res.ptr && back == v)) {
-                        r.violation("C10", S_ROUNDTRIP, fmt_class(v, base, len, n), kase(v, base, len),
+                        VIOL(r, "C10", S_ROUNDTRIP, fmt_class(v, base, len, n), kase(v, base, len),
                             cat("to_chars wrote ", show_buf(f, static_cast<std::size_t>(res.ptr - f)), "; from_chars gave ec=", int(pr.ec), " consumed=", pr.ptr - f,
                                 " value=", show_val(back), " (expected ", show_val(v), ")"));
                     }
@@ -228,7 +245,7 @@ struct FormatChecker {
                 }
                 if (!ok) {
                     bool const inRange = res.end >= f && res.end <= f + len;
-                    r.violation("C10", S_FI_PLAIN, fmt_class(v, base, len, n), kase(v, base, len),
+                    VIOL(r, "C10", S_FI_PLAIN, fmt_class(v, base, len, n), kase(v, base, len),
                         cat("tetl: error=", int(res.error), inRange && res.error == etl::strings::from_integer_error::none ? cat(" text=", show_buf(f, static_cast<std::size_t>(res.end - f))) : std::string(),
                             " | expected: ", n <= len ? cat("none, text=", show_buf(ref, n)) : std::string("overflow")));
                 }
@@ -248,7 +265,7 @@ struct FormatChecker {
                 }
                 if (!ok) {
                     bool const inRange = res.end >= f && res.end <= f + len;
-                    r.violation("C10", S_FI_TERM, fmt_class(v, base, len, n + 1), kase(v, base, len),
+                    VIOL(r, "C10", S_FI_TERM, fmt_class(v, base, len, n + 1), kase(v, base, len),
                         cat("tetl: error=", int(res.error), inRange && res.error == etl::strings::from_integer_error::none ? cat(" text=", show_buf(f, static_cast<std::size_t>(res.end - f))) : std::string(),
                             " | expected: ", n + 1 <= len ? cat("none, text=", show_buf(ref, n), " + NUL") : std::string("overflow")));
                 }
@@ -265,7 +282,7 @@ struct FormatChecker {
         });
         if (t != mc::Trap::none) {
             bool const contract = t == mc::Trap::assert_fired;
-            r.violation(contract ? "C05" : "C02", subject, cat(fmt_class(curV, curBase, curLen, curNeed), "/", mc::trap_name(t)), kase(curV, curBase, curLen), mc::describe_trap(t));
+            VIOL(r, contract ? "C05" : "C02", subject, cat(fmt_class(curV, curBase, curLen, curNeed), "/", mc::trap_name(t)), kase(curV, curBase, curLen), mc::describe_trap(t));
             pool.reset();
         }
     }
@@ -445,13 +462,17 @@ ForkResult forked(F&& f)
 }
 
 struct ToStringStats {
-    std::uint64_t evals{0}, nontrivial{0}, skipped{0}, forks{0};
+    std::uint64_t evals{0}, nontrivial{0}, skipped{0}, forks{0}, unsafe{0};
 };
 
 template <std::size_t Cap, typename T>
 void to_string_cap(mc::Reporter& r, std::vector<T> const& values, ToStringStats& st)
 {
     std::uint64_t san = mc::san_hits();
+    // exact-fit calls run in a child process until one of them has returned normally (the
+    // unrepaired code destroys the stack there); after six failures the rest is not called
+    bool exactSafe  = false;
+    int exactFailed = 0;
     for (T v : values) {
         char ref[32];
         auto const mr       = std::to_chars(ref, ref + sizeof ref, v, 10);
@@ -473,41 +494,46 @@ void to_string_cap(mc::Reporter& r, std::vector<T> const& values, ToStringStats&
         std::string got;
         ++st.evals;
         if (v != 0) { ++st.nontrivial; }
-        if (n == Cap) {
-            // exact fit: run in a child, the unrepaired code copies from a null end pointer
+        if (n == Cap && !exactSafe) {
+            if (exactFailed >= 6) {
+                ++st.unsafe;
+                continue;
+            }
             ++st.forks;
             auto const fr = forked(render);
+            if (fr.died || fr.payload[0] != 'R') { ++exactFailed; }
             if (fr.died) {
-                r.violation("C02", S_TO_STRING, cls + "/crash", kase, "child process died (stack destroyed) while formatting a value whose digits fit the returned string exactly");
-                r.violation("C10", S_TO_STRING, cls, kase, cat("tetl: no result (crash) | std: ", show_buf(ref, n)));
+                VIOL(r, "C02", S_TO_STRING, cls + "/crash", kase, "child process died (stack destroyed) while formatting a value whose digits fit the returned string exactly");
+                VIOL(r, "C10", S_TO_STRING, cls, kase, cat("tetl: no result (crash) | std: ", show_buf(ref, n)));
                 continue;
             }
             if (fr.payload[0] == 'A') {
-                r.violation("C05", S_TO_STRING, cls + "/assert", kase, fr.payload.substr(2));
-                r.violation("C10", S_TO_STRING, cls, kase, cat("tetl: contract handler instead of a result (", fr.payload.substr(2), ") | std: ", show_buf(ref, n)));
+                VIOL(r, "C05", S_TO_STRING, cls + "/assert", kase, fr.payload.substr(2));
+                VIOL(r, "C10", S_TO_STRING, cls, kase, cat("tetl: contract handler instead of a result (", fr.payload.substr(2), ") | std: ", show_buf(ref, n)));
                 continue;
             }
             if (fr.payload[0] == 'T') {
-                r.violation("C02", S_TO_STRING, cls + "/crash", kase, fr.payload.substr(2));
-                r.violation("C10", S_TO_STRING, cls, kase, cat("tetl: no result (", fr.payload.substr(2), ") | std: ", show_buf(ref, n)));
+                VIOL(r, "C02", S_TO_STRING, cls + "/crash", kase, fr.payload.substr(2));
+                VIOL(r, "C10", S_TO_STRING, cls, kase, cat("tetl: no result (", fr.payload.substr(2), ") | std: ", show_buf(ref, n)));
                 continue;
             }
-            if (fr.payload[1] == 'S') { r.violation("C02", S_TO_STRING, cls, kase, "ASan/UBSan report during the call (see job log)"); }
-            got = fr.payload.substr(2);
+            if (fr.payload[1] == 'S') { VIOL(r, "C02", S_TO_STRING, cls, kase, "ASan/UBSan report during the call (see job log)"); }
+            got       = fr.payload.substr(2);
+            exactSafe = got == want && fr.payload[1] != 'S';
         } else {
             mc::Trap const t = mc::guarded([&] { got = render(); });
             if (t != mc::Trap::none) {
-                r.violation(t == mc::Trap::assert_fired ? "C05" : "C02", S_TO_STRING, cat(cls, "/", mc::trap_name(t)), kase, mc::describe_trap(t));
+                VIOL(r, t == mc::Trap::assert_fired ? "C05" : "C02", S_TO_STRING, cat(cls, "/", mc::trap_name(t)), kase, mc::describe_trap(t));
                 continue;
             }
             auto const now = mc::san_hits();
             if (now != san) {
                 san = now;
-                r.violation("C02", S_TO_STRING, cls, kase, "ASan/UBSan report during the call (see job log)");
+                VIOL(r, "C02", S_TO_STRING, cls, kase, "ASan/UBSan report during the call (see job log)");
             }
         }
         r.outcome(mc::hash_str(got));
-        if (got != want) { r.violation("C10", S_TO_STRING, cls, kase, cat("tetl: ", show_buf(got.data(), got.size()), " | std: ", show_buf(want.data(), want.size()), "  (text|z = NUL-terminated)")); }
+        if (got != want) { VIOL(r, "C10", S_TO_STRING, cls, kase, cat("tetl: ", show_buf(got.data(), got.size()), " | std: ", show_buf(want.data(), want.size()), "  (text|z = NUL-terminated)")); }
     }
 }
 
@@ -522,6 +548,7 @@ void job_to_string(mc::Reporter& r, long window)
     r.count("distinct_nontrivial", st.nontrivial);
     r.count("skipped_does_not_fit", st.skipped);
     r.count("forked_calls", st.forks);
+    r.count("exact_fit_calls_not_made_after_six_failures", st.unsafe);
     r.sample(cat("to_string<Capacity>(", tname<T>(), "): ", values.size(), " lattice values x ", sizeof...(Caps), " capacities, values that fit only"));
 }
 
@@ -571,6 +598,8 @@ int main(int argc, char** argv)
     add_type<char>(m, true, false);
     add_type<short>(m, false, true);
     add_type<unsigned short>(m, false, true);
+#endif
+#if !defined(MC_PART) || MC_PART == 2
     add_type<int>(m, false, false);
     add_type<unsigned>(m, false, false);
     add_type<long>(m, false, false);
@@ -578,7 +607,7 @@ int main(int argc, char** argv)
     add_type<long long>(m, false, false);
     add_type<unsigned long long>(m, false, false);
 #endif
-#if !defined(MC_PART) || MC_PART == 2
+#if !defined(MC_PART) || MC_PART == 3
     m.job("to_string/int", both, [](mc::Reporter& r) { job_to_string<int, 1, 2, 3, 4, 5, 6, 9, 10, 11, 12, 16>(r, r.thorough() ? 12000 : 1300); });
     m.job("to_string/unsigned", both, [](mc::Reporter& r) { job_to_string<unsigned, 1, 2, 3, 4, 5, 6, 9, 10, 11, 12, 16>(r, r.thorough() ? 12000 : 1300); });
     m.job("to_string/long", both, [](mc::Reporter& r) { job_to_string<long, 1, 2, 3, 10, 18, 19, 20, 21, 24>(r, r.thorough() ? 12000 : 1300); });
